@@ -37,7 +37,7 @@ EDGE_QUERIES = ["edge_error", "edge_chi2", "edge_jacobians", "edge_cgh", "edge_n
 VERTEX_QUERIES = ["vertex_to_g2o", "vertex_equals_self", "vertex_equals_other"]
 GRAPH_QUERIES = ["graph_chi2", "graph_equals_clone", "graph_equals_perturbed", "graph_export", "graph_export", "params_to_g2o", "graph_deepcopy", "graph_pickle"]
 POSE_QUERIES = ["pose_unary", "pose_binary", "pose_jac_unary", "pose_jac_binary", "pose_jac_point", "pose_boxplus",
-                "pose_alias_iadd", "pose_copy_independent", "pose_views_independent", "pose_equals"]
+                "pose_alias_iadd", "pose_copy_independent", "pose_views_independent", "pose_equals", "pose_held_result", "pose_held_result"]
 
 
 def canon_bytes(arr, t=None):
@@ -186,13 +186,13 @@ class C15(OptEngineBase):
     ]
     PROBES = [
         "numeric_jacobian_on_fixed_vertex", "same_vertex_twice_in_edge", "nary_edge", "export_failed", "export_ok", "optimize_failed",
-        "alias_test", "returned_buffer_test", "history_len_50", "copy_test", "query_raised_naturally", "optimize_ok", "raw_heading_written_in_place",
+        "alias_test", "returned_buffer_test", "history_len_50", "copy_test", "query_raised_naturally", "optimize_ok", "raw_heading_written_in_place", "held_result_test",
     ]
 
     # ------------------------------------------------------------------ generate
     def generate(self, rng, tier, index):
         config = draw_config(rng)
-        workload, meta = graphs.gen_opt_workload(rng, {"self_loops": True, "max_vertices": 10, "allow_numeric": True, "alias_poses": 0.12, "asym_information": 0.15})
+        workload, meta = graphs.gen_opt_workload(rng, {"self_loops": True, "max_vertices": 10, "allow_numeric": True, "alias_poses": 0.12, "asym_information": 0.15, "rank_deficient_information": 0.06, "satellite_pose": 0.15})
         # more numerical twins here: this engine is about the perturb/restore protocol
         for e in workload["edges"]:
             if e["kind"] in ("odometry", "landmark", "prior") and rng.random() < 0.3:
@@ -261,6 +261,8 @@ class C15(OptEngineBase):
                     o["m"] = rng.choice(JAC_POINT)
                 if q in ("pose_boxplus", "pose_alias_iadd"):
                     o["delta"] = [rng.gauss(0, 0.3) for _ in range(6)]
+                if q == "pose_held_result":
+                    o["m"] = rng.choice(JAC_UNARY + JAC_UNARY + JAC_BINARY + JAC_POINT + ["to_array", "to_compact", "position", "to_matrix", "inverse", "copy"])
                 ops.append(o)
         meta["n_queries"] = n_q
         case = {"config": config, "workload": workload, "meta": meta, "ops": ops, "faults": []}
@@ -397,6 +399,47 @@ class C15(OptEngineBase):
             if ta != tb:
                 return "incompatible"
             return [a.equals(b), a.equals(a)]
+        if q == "pose_held_result":
+            # the caller keeps what a method returned for pose a, calls the same method for another pose, then looks again
+            m = op["m"]
+
+            def call(p, other):
+                if m == "to_matrix" and not hasattr(p, "to_matrix"):
+                    return p.to_array()
+                attr = getattr(p, m)
+                if not callable(attr):
+                    return attr
+                if m in JAC_BINARY:
+                    return attr(other)
+                if m in JAC_POINT:
+                    return attr(other)
+                return attr()
+
+            def partner(p):
+                t = graphs.type_name(p)
+                want = graphs.POINT_OF[t] if m in JAC_POINT else t
+                for loc in pose_pool(g):
+                    cand = locate(g, loc)
+                    if graphs.type_name(cand) == want and cand is not p:
+                        return cand
+                return None
+
+            oa = partner(a)
+            if oa is None and (m in JAC_BINARY or m in JAC_POINT):
+                return "incompatible"
+            first = call(a, oa)
+            keep = canon_value(first)
+            others = [locate(g, loc) for loc in pose_pool(g)]
+            for p2 in others:
+                if p2 is a or graphs.type_name(p2) != ta:
+                    continue
+                o2 = partner(p2)
+                if o2 is None and (m in JAC_BINARY or m in JAC_POINT):
+                    continue
+                call(p2, o2)
+                break
+            res.probe("held_result_test")
+            return [keep, canon_value(first)]
         d = a.COMPACT_DIMENSIONALITY
         if q == "pose_boxplus":
             return a + np.array(op["delta"][:d], dtype=np.float64)
@@ -528,6 +571,9 @@ class C15(OptEngineBase):
                     bad = "to_array/to_compact/position/orientation returned a view of the pose: %r" % (vals[0],)
                 if op["q"] in ("graph_deepcopy", "graph_pickle") and not isinstance(vals[0], BaseException) and vals[0][0] is not True:
                     bad = "copy.deepcopy / pickle round trip of the graph does not reproduce its state bit for bit"
+                if op["q"] == "pose_held_result" and not isinstance(vals[0], BaseException) and isinstance(vals[0], list):
+                    if vals[0][0] != vals[0][1]:
+                        bad = "the value %s() returned for one pose changed when the same method was called for another pose (a shared work array was handed out)" % op["m"]
                 if op["q"].startswith("buffer_") and not isinstance(vals[0], BaseException):
                     if canon_value(vals[0][0]) != canon_value(vals[0][1]):
                         bad = "value returned after scribbling over the previously returned buffer differs (a cached/shared buffer was handed out)"
